@@ -780,7 +780,36 @@ fn main() {
         std::process::exit(2);
     };
     let caps: Vec<usize> = (3..=file.len() + 3).collect();
-    let fails = run_monitors(&fmt, &file, hist_len, &caps);
+    let mut fails = vec![];
+    let fmts: Vec<&str> = if fmt == "fasta" || fmt == "fastq" { vec![fmt.as_str()] } else { vec!["fasta", "fastq"] };
+    for fm in &fmts {
+        fails.extend(run_monitors(fm, &file, hist_len, &caps));
+    }
+    if args[1] != "--file" && !fails.iter().any(|f| f.tags.contains(&prop.as_str())) {
+        // The counterexample's own input shows nothing through the public API (typical for a
+        // kernel that is not a parser, e.g. fill_buf): try canonical well-formed inputs, still only
+        // to confirm that the defect the solver found is reachable through the public API.
+        let canon: [(&str, &[u8]); 8] = [
+            ("fasta", b">a\nAC\n>b\nG\n"),
+            ("fasta", b"\r\n\r\n>a\r\nA\r\nC\r\n>b\r\nG"),
+            ("fasta", b"\n\n\n\n>a b\nACGT\nAC\n>\n>c\nT\n\n"),
+            ("fasta", b"\r\n\r\nx"),
+            ("fastq", b"@a\nAC\n+\nII\n@b\nG\n+\nI\n"),
+            ("fastq", b"@a x\r\nAC\r\n+\r\nII\r\n@b\r\nG\r\n+\r\nI"),
+            ("fastq", b"@a\nAC\n+\nII\n@b\nG\n+\nI\n\r\n\n"),
+            ("fastq", b"@a\nAC\n+\nII\n@b\nGG\n+a"),
+        ];
+        for (fm, data) in canon.iter() {
+            if !fmts.contains(fm) {
+                continue;
+            }
+            let caps: Vec<usize> = (3..=data.len() + 2).collect();
+            fails.extend(run_monitors(fm, data, 2, &caps));
+            if fails.iter().any(|f| f.tags.contains(&prop.as_str())) {
+                break;
+            }
+        }
+    }
     let rel: Vec<&Fail> = fails.iter().filter(|f| prop == "*" || f.tags.contains(&prop.as_str())).collect();
     if args[1] == "--file" {
         for f in rel.iter().take(30) {
